@@ -1100,7 +1100,7 @@ pub fn run(c: &mut Ctx) {
         if c.out_of_time() {
             break;
         }
-        ctx::slot_write(idx, "C16 stream-churn", &[]);
+        ctx::slot_write(idx, &format!("{}|case", fam), &[]);
         churn_case(c, fam, idx);
     }
     let fam = "udp-bare";
@@ -1109,7 +1109,7 @@ pub fn run(c: &mut Ctx) {
         if c.out_of_time() {
             break;
         }
-        ctx::slot_write(idx, "C16 udp-bare", &[]);
+        ctx::slot_write(idx, &format!("{}|case", fam), &[]);
         udp_bare_case(c, fam, idx);
     }
     let fam = "udp";
@@ -1118,7 +1118,7 @@ pub fn run(c: &mut Ctx) {
         if c.out_of_time() {
             break;
         }
-        ctx::slot_write(idx, "C16 udp", &[]);
+        ctx::slot_write(idx, &format!("{}|case", fam), &[]);
         udp_case(c, fam, idx);
     }
     let fam = "stream";
@@ -1127,7 +1127,7 @@ pub fn run(c: &mut Ctx) {
         if c.out_of_time() {
             break;
         }
-        ctx::slot_write(idx, "C16 stream", &[]);
+        ctx::slot_write(idx, &format!("{}|case", fam), &[]);
         stream_case(c, fam, idx);
     }
     if !c.replaying() {
